@@ -398,6 +398,16 @@ def pandas_dtype_strategy(
     if strategy is not None:
         if _is_datetime_tz(pandera_dtype):
             return _datetime_strategy(pandera_dtype.type, strategy)  # type: ignore
+        # numpy truncates pandas.Timestamp and pandas.Timedelta values to
+        # microseconds, so pass the nanoseconds via the value attribute.
+        if is_datetime(pandera_dtype):
+            return strategy.map(
+                lambda x: np.datetime64(pd.Timestamp(x).value, "ns")
+            )
+        if is_timedelta(pandera_dtype):
+            return strategy.map(
+                lambda x: np.timedelta64(pd.Timedelta(x).value, "ns")
+            )
         return strategy.map(np_dtype.type)
     elif is_datetime(pandera_dtype) or is_timedelta(pandera_dtype):
         return numpy_time_dtypes(
@@ -905,6 +915,8 @@ def column_strategy(
     """
     verify_dtype(pandera_dtype, schema_type="column", name=name)
     elements = field_element_strategy(pandera_dtype, strategy, checks=checks)
+    if _is_datetime_tz(pandera_dtype):
+        elements = _timestamp_to_datetime64_strategy(elements)
     return pdst.column(
         name=name,
         elements=elements,
@@ -938,6 +950,8 @@ def index_strategy(
     """
     verify_dtype(pandera_dtype, schema_type="index", name=name)
     elements = field_element_strategy(pandera_dtype, strategy, checks=checks)
+    if _is_datetime_tz(pandera_dtype):
+        elements = _timestamp_to_datetime64_strategy(elements)
 
     strategy = pdst.indexes(
         elements=elements,
